@@ -126,6 +126,11 @@ void ldb_memtable_add(ldb_memtable_t *mt, ldb_seqnum_t sequence, ldb_valtype_t t
 #ifdef BAT_INLINE_SLICE
 #include "util/slice.c"
 #endif
+/* encoder units: the real growable buffer and length-prefixed writer are inlined */
+#ifdef BAT_INLINE_BUF
+#include "util/buffer.c"
+#include "util/slice.c"
+#endif
 #include "write_batch.c"
 
 /* =================================================================== iter */
@@ -181,3 +186,134 @@ void h_iterate_b(void) {
   CHECK(h.number == in_number && h.state == NULL, "batch_iterate: the handler object itself is not written");
   CANARY();
 }
+
+
+/* ==================================================================== enc */
+/* header: bytes 0..7 = LE64 sequence, bytes 8..11 = LE32 count */
+#define BATCH_HDR_OK(b) (__CPROVER_r_ok(b, sizeof(*(b))) && (b)->rep.size >= 12 && __CPROVER_rw_ok((b)->rep.data, 12))
+
+int c_batch_count(const ldb_batch_t *batch)
+__CPROVER_requires(BATCH_HDR_OK(batch))
+__CPROVER_assigns()
+__CPROVER_ensures(__CPROVER_return_value == HDR_COUNT(batch->rep.data))
+;
+void c_batch_set_count(ldb_batch_t *batch, int count)
+__CPROVER_requires(BATCH_HDR_OK(batch))
+__CPROVER_assigns(__CPROVER_object_upto(batch->rep.data + 8, 4))
+__CPROVER_ensures(IS_LE32(batch->rep.data + 8, (uint32_t)count))
+;
+ldb_seqnum_t c_batch_sequence(const ldb_batch_t *batch)
+__CPROVER_requires(BATCH_HDR_OK(batch))
+__CPROVER_assigns()
+__CPROVER_ensures(__CPROVER_return_value == HDR_SEQ(batch->rep.data))
+;
+void c_batch_set_sequence(ldb_batch_t *batch, ldb_seqnum_t seq)
+__CPROVER_requires(BATCH_HDR_OK(batch))
+__CPROVER_assigns(__CPROVER_object_upto(batch->rep.data, 8))
+__CPROVER_ensures(IS_LE64(batch->rep.data, seq))
+;
+#define H_HDR_SETUP \
+  ldb_batch_t b; IN_SIZE(in_n); IN_BUF(buf, in_n); SNAP_BUF(buf, in_n); \
+  ASSUME(in_n >= 12); b.rep.data = buf; b.rep.size = in_n; b.rep.alloc = in_n
+void h_count(void) { H_HDR_SETUP; int r = ldb_batch_count(&b); CANARY(); }
+void h_sequence(void) { H_HDR_SETUP; ldb_seqnum_t r = ldb_batch_sequence(&b); CANARY(); }
+void h_set_count(void) {
+  H_HDR_SETUP; IN_INT(in_count); uint64_t seq0 = LE64_AT(buf); IN_SIZE(in_j); uint8_t old = in_j < in_n ? buf[in_j] : 0;
+  ldb_batch_set_count(&b, in_count);
+  CHECK(LE64_AT(buf) == seq0, "batch_set_count: the sequence field is untouched");
+  CHECK(!(in_j >= 12 && in_j < in_n) || buf[in_j] == old, "batch_set_count: the records are untouched");
+  CHECK(b.rep.data == buf && b.rep.size == in_n, "batch_set_count: rep not resized");
+  CANARY();
+}
+void h_set_sequence(void) {
+  H_HDR_SETUP; IN_U64(in_seq); uint32_t cnt0 = LE32_AT(buf + 8); IN_SIZE(in_j); uint8_t old = in_j < in_n ? buf[in_j] : 0;
+  ldb_batch_set_sequence(&b, in_seq);
+  CHECK(LE32_AT(buf + 8) == cnt0, "batch_set_sequence: the count field is untouched");
+  CHECK(!(in_j >= 12 && in_j < in_n) || buf[in_j] == old, "batch_set_sequence: the records are untouched");
+  CHECK(b.rep.data == buf && b.rep.size == in_n, "batch_set_sequence: rep not resized");
+  CANARY();
+}
+/* header round trip on the real code */
+void h_hdr_rt(void) {
+  H_HDR_SETUP; IN_INT(in_count); IN_U64(in_seq);
+  ldb_batch_set_count(&b, in_count); ldb_batch_set_sequence(&b, in_seq);
+  CHECK(ldb_batch_count(&b) == in_count && ldb_batch_sequence(&b) == in_seq, "batch header: count and sequence read back what was set, independently");
+  CANARY();
+}
+
+/* reset: rep = 12 zero bytes (sequence 0, count 0) */
+void c_batch_reset(ldb_batch_t *batch)
+__CPROVER_requires(__CPROVER_rw_ok(batch, sizeof(*batch)) && BUF_PRE(&batch->rep))
+__CPROVER_assigns(batch->rep.data, batch->rep.size, batch->rep.alloc, __CPROVER_object_upto(batch->rep.data, batch->rep.alloc))
+__CPROVER_frees(batch->rep.data)
+__CPROVER_ensures(BUF_POST(&batch->rep) && batch->rep.size == 12)
+__CPROVER_ensures(HDR_SEQ(batch->rep.data) == 0 && LE32_AT(batch->rep.data + 8) == 0)
+;
+#define MK_BATCH(b, cap) \
+  ldb_batch_t b; IN_SIZE(in_alloc); IN_SIZE(in_size); IN_SIZE(in_j); IN_SIZE(in_k); \
+  ASSUME(in_size <= in_alloc && in_alloc <= (cap)); \
+  b.rep.alloc = in_alloc; b.rep.size = in_size; b.rep.data = in_alloc ? malloc(in_alloc) : NULL; \
+  ASSUME(in_alloc == 0 || b.rep.data != NULL); \
+  g_bj = in_j; g_bk = in_k; g_bold = (in_j < in_size) ? b.rep.data[in_j] : 0
+void h_reset(void) {
+  MK_BATCH(b, VERIF_OBJ_MAX);
+  ldb_batch_reset(&b);
+  if (in_alloc <= 64) { CANARY(); }
+}
+
+/* put / del: count + 1, and the record `tag ‖ varint32(klen) ‖ key [‖ varint32(vlen) ‖ value]` appended.
+ * Sizes, header and growth for all sizes; record bytes when g_bcontent is set (bounded twins). */
+#define OLD_B(b, i) ((uint32_t)__CPROVER_old((b)->rep.data[i]))
+#define OLD_COUNT(b) (OLD_B(b, 8) | (OLD_B(b, 9) << 8) | (OLD_B(b, 10) << 16) | (OLD_B(b, 11) << 24))
+#define OLD_SEQ(b) ((uint64_t)(OLD_B(b, 0) | (OLD_B(b, 1) << 8) | (OLD_B(b, 2) << 16) | (OLD_B(b, 3) << 24)) | \
+                    ((uint64_t)(OLD_B(b, 4) | (OLD_B(b, 5) << 8) | (OLD_B(b, 6) << 16) | (OLD_B(b, 7) << 24)) << 32))
+#define REC_PUT_LEN(k, v) (1 + V32_SIZE(k) + (k) + V32_SIZE(v) + (v))
+#define REC_DEL_LEN(k) (1 + V32_SIZE(k) + (k))
+#define BATCH_PRE(b) (__CPROVER_rw_ok(b, sizeof(*(b))) && BUF_PRE(&(b)->rep) && BUF_KEEP_PRE(&(b)->rep) && (b)->rep.size >= 12)
+#define KV_OK(x, b) (__CPROVER_r_ok(x, sizeof(*(x))) && (x)->size <= VERIF_U32_MAX && SLICE_OK(x) && \
+                     ((x)->size == 0 || !__CPROVER_same_object((x)->data, (b)->rep.data)) && BUF_CONTENT_PRE(&(b)->rep, (x)->size))
+void c_batch_put(ldb_batch_t *batch, const ldb_slice_t *key, const ldb_slice_t *value)
+__CPROVER_requires(BATCH_PRE(batch) && KV_OK(key, batch) && KV_OK(value, batch))
+__CPROVER_assigns(batch->rep.data, batch->rep.size, batch->rep.alloc, __CPROVER_object_upto(batch->rep.data, batch->rep.alloc))
+__CPROVER_frees(batch->rep.data)
+__CPROVER_ensures(BUF_POST(&batch->rep) && batch->rep.size == __CPROVER_old(batch->rep.size) + REC_PUT_LEN(key->size, value->size))
+__CPROVER_ensures(HDR_COUNT(batch->rep.data) == (int)(OLD_COUNT(batch) + 1u))
+__CPROVER_ensures(HDR_SEQ(batch->rep.data) == OLD_SEQ(batch))
+__CPROVER_ensures(g_bcontent ==> ((g_bj >= 8 && g_bj < 12) || BUF_KEEP_POST(&batch->rep, __CPROVER_old(batch->rep.size))))
+__CPROVER_ensures(g_bcontent ==> batch->rep.data[__CPROVER_old(batch->rep.size)] == 1)
+__CPROVER_ensures(g_bcontent ==> LPS_PREFIX_IS(batch->rep.data + __CPROVER_old(batch->rep.size) + 1, key->size))
+__CPROVER_ensures(g_bcontent ==> (g_bk < key->size ==> batch->rep.data[__CPROVER_old(batch->rep.size) + 1 + V32_SIZE(key->size) + g_bk] == key->data[g_bk]))
+__CPROVER_ensures(g_bcontent ==> LPS_PREFIX_IS(batch->rep.data + __CPROVER_old(batch->rep.size) + 1 + V32_SIZE(key->size) + key->size, value->size))
+__CPROVER_ensures(g_bcontent ==> (g_bk < value->size ==> batch->rep.data[__CPROVER_old(batch->rep.size) + 1 + V32_SIZE(key->size) + key->size + V32_SIZE(value->size) + g_bk] == value->data[g_bk]))
+;
+void c_batch_del(ldb_batch_t *batch, const ldb_slice_t *key)
+__CPROVER_requires(BATCH_PRE(batch) && KV_OK(key, batch))
+__CPROVER_assigns(batch->rep.data, batch->rep.size, batch->rep.alloc, __CPROVER_object_upto(batch->rep.data, batch->rep.alloc))
+__CPROVER_frees(batch->rep.data)
+__CPROVER_ensures(BUF_POST(&batch->rep) && batch->rep.size == __CPROVER_old(batch->rep.size) + REC_DEL_LEN(key->size))
+__CPROVER_ensures(HDR_COUNT(batch->rep.data) == (int)(OLD_COUNT(batch) + 1u))
+__CPROVER_ensures(HDR_SEQ(batch->rep.data) == OLD_SEQ(batch))
+__CPROVER_ensures(g_bcontent ==> ((g_bj >= 8 && g_bj < 12) || BUF_KEEP_POST(&batch->rep, __CPROVER_old(batch->rep.size))))
+__CPROVER_ensures(g_bcontent ==> batch->rep.data[__CPROVER_old(batch->rep.size)] == 0)
+__CPROVER_ensures(g_bcontent ==> LPS_PREFIX_IS(batch->rep.data + __CPROVER_old(batch->rep.size) + 1, key->size))
+__CPROVER_ensures(g_bcontent ==> (g_bk < key->size ==> batch->rep.data[__CPROVER_old(batch->rep.size) + 1 + V32_SIZE(key->size) + g_bk] == key->data[g_bk]))
+;
+#define MK_KV(x, nm, buf, cap) IN_SIZE(nm); ASSUME(nm <= (cap)); IN_BUF(buf, nm); ldb_slice_t x; x.data = buf; x.size = nm; x.alloc = 0
+#define H_PUT(fname, cap, kvcap, content) void fname(void) { \
+  g_bcontent = (content); \
+  MK_BATCH(b, cap); MK_KV(key, in_kn, kb, kvcap); MK_KV(val, in_vn, vb, kvcap); \
+  ASSUME(in_size >= 12); \
+  ldb_batch_put(&b, &key, &val); \
+  if (in_alloc <= 64 && in_kn <= 64 && in_vn <= 64) { CANARY(); } \
+}
+#define H_DEL(fname, cap, kvcap, content) void fname(void) { \
+  g_bcontent = (content); \
+  MK_BATCH(b, cap); MK_KV(key, in_kn, kb, kvcap); \
+  ASSUME(in_size >= 12); \
+  ldb_batch_del(&b, &key); \
+  if (in_alloc <= 64 && in_kn <= 64) { CANARY(); } \
+}
+H_PUT(h_put, VERIF_OBJ_MAX, VERIF_U32_MAX, 0)
+H_PUT(h_put_b, BUF_CONTENT_MAX, 4, 1)
+H_DEL(h_del, VERIF_OBJ_MAX, VERIF_U32_MAX, 0)
+H_DEL(h_del_b, BUF_CONTENT_MAX, 4, 1)
